@@ -106,6 +106,13 @@ cfg_not_miri! {
                     self.heap.len()
                 }
 
+                pub(crate) fn next_time(&self) -> Option<SimTime> {
+                    self.zero_queue
+                        .front()
+                        .or_else(|| self.heap.peek())
+                        .map(|node| node.time)
+                }
+
                 pub(crate) fn new_with(options: &Builder) -> Self {
                     Self {
                         heap: BinaryHeap::with_capacity(64),
@@ -196,6 +203,10 @@ cfg_not_miri! {
 
                 pub(crate) fn is_empty(&self) -> bool {
                     self.inner.is_empty()
+                }
+
+                pub(crate) fn next_time(&self) -> Option<SimTime> {
+                    self.inner.next_time().map(SimTime::from_duration)
                 }
 
                 pub(crate) fn new_with(options: &Builder) -> Self {
@@ -337,6 +348,13 @@ cfg_miri! {
 
             pub(crate) fn len_nonzero(&self) -> usize {
                 self.heap.len()
+            }
+
+            pub(crate) fn next_time(&self) -> Option<SimTime> {
+                self.zero_queue
+                    .front()
+                    .or_else(|| self.heap.peek())
+                    .map(|node| node.time)
             }
 
             pub(crate) fn new_with(options: &Builder) -> Self {
